@@ -358,6 +358,21 @@ Proof.
   apply (iruns_spec c Hwf Hg n 0 (rows0 c)). cbn [shist]. apply inv_init.
 Qed.
 
+(* with fixed_D18c on nothing crashes any more; together with the trivial sibling guard the only hypotheses left are the solver
+   (D7: Heun) and the scope of the property (delays of at least two steps) *)
+Lemma crashes_never c : crashes c = false.
+Proof. reflexivity. Qed.
+Lemma sibling_guard_trivial' c : g_no_undelayed_sibling c = true.
+Proof.
+  unfold g_no_undelayed_sibling. apply forallb_forall. intros e _.
+  unfold is_delayed, rsteps. destruct (ed e); cbn; rewrite ?orb_true_r; reflexivity.
+Qed.
+Theorem full_up_to_heun c n : wf c = true -> g_euler c = true -> g_delays_ge2 c = true -> impl_run c n = Ok (spec_run c n).
+Proof.
+  intros Hwf He Hg. apply impl_refines_spec; [exact Hwf|].
+  unfold guards, g_no_parallel_buffered. rewrite He, Hg, sibling_guard_trivial', crashes_never. reflexivity.
+Qed.
+
 (* the meaning of `past`: the state of d steps ago, zero before the simulation started *)
 Lemma shist_cons c k : exists x, shist c (S k) = x :: shist c k.
 Proof. cbn [shist]. unfold spec_step. destruct (cheun c); eexists; reflexivity. Qed.
